@@ -9,7 +9,10 @@ def extract_all(ctx, broken):
     ok2, log2 = ctx.extract("decodercfg", ["lean/KafkaVerif/Gen/DecoderCfg.lean"])
     if not ok2:
         broken.append({"kind": "obligation", "name": "translator go/extract decodercfg", "detail": log2[-1500:]})
-    return ok and ok2
+    ok3, log3 = ctx.extract("recordcfg", ["lean/KafkaVerif/Gen/RecordCfg.lean"])
+    if not ok3:
+        broken.append({"kind": "obligation", "name": "translator go/extract recordcfg", "detail": log3[-1500:]})
+    return ok and ok2 and ok3
 
 
 def oracle_lines(ctx, oracle, reqs):
@@ -204,3 +207,59 @@ def v1_to_v0(frame, fields):
             (v,) = struct.unpack(">i", b[e:e + 4])
             b[e:e + 4] = struct.pack(">i", v - 8)
     return bytes(b)
+
+
+def _add32(b, off, delta):
+    (v,) = struct.unpack(">i", b[off:off + 4])
+    b[off:off + 4] = struct.pack(">i", v + delta)
+
+
+def record_set_tails(frame, fields):
+    """honest frames whose record set announces more bytes than its batches consume: a stump (< 17 bytes, what a
+    broker leaves when it cuts the set at MaxBytes) or a further batch with an unknown magic byte after the last
+    batch; frame size and record-set size stay consistent.  Returns list of (label, bytes)."""
+    out = []
+    sets = [f for f in fields if f["kind"] == "i32" and f["crc"] is None and f["encl"] == [0] and
+            any(g["encl"][:2] == [0, f["off"]] for g in fields)]
+    for rs in sets:
+        (size,) = struct.unpack(">i", frame[rs["off"]:rs["off"] + 4])
+        end = rs["off"] + 4 + size
+        tails = [("stump1", b"\x00"), ("stump5", b"\x00\x00\x00\x00\x07"), ("stump16", bytes(range(1, 17))),
+                 ("magic9", b"\x00" * 8 + struct.pack(">i", 9) + b"\x00" * 4 + b"\x09" + b"\x00" * 4),
+                 ("magic9-long", b"\x00" * 8 + struct.pack(">i", 40) + b"\x00" * 4 + b"\x09" + b"\x00" * 35)]
+        for label, t in tails:
+            b = bytearray(frame[:end] + t + frame[end:])
+            _add32(b, rs["off"], len(t))
+            _add32(b, 0, len(t))
+            out.append((label, bytes(b)))
+    return out
+
+
+def frame_ends_after(frame, fields):
+    """the frame-size prefix is set so that the frame ends exactly after a length field's prefix (the announced
+    content of that field then lies beyond the frame): one mutant per length field"""
+    out = []
+    for f in fields:
+        if f["off"] < 8:
+            continue
+        end = f["off"] + f["width"]
+        b = bytearray(frame[:end])
+        b[0:4] = struct.pack(">i", end - 4)
+        out.append(bytes(b))
+        # same prefix, but the announced content still follows on the stream (it then belongs to no frame)
+        b2 = bytearray(frame)
+        b2[0:4] = struct.pack(">i", end - 4)
+        out.append(bytes(b2))
+    return out
+
+
+def tag_marker_recursion(frame, fields):
+    """flexible frames: the LAST tag-buffer count (0) replaced by one tagged field with id 2^64-1 (= -1 as Go int,
+    the id under which decode.go files the `_ struct{}` marker) holding an empty nested tag buffer"""
+    uv = [f for f in fields if f["kind"] == "uv" and frame[f["off"]:f["off"] + f["width"]] == b"\x00"]
+    out = []
+    for f in uv[-2:]:
+        for nested in (b"\x00", b"\x01" + b"\xff" * 9 + b"\x01" + b"\x00" + b"\x00", b"\xff" * 9 + b"\x01"):
+            new = b"\x01" + b"\xff" * 9 + b"\x01" + enc_uv(len(nested)) + nested
+            out.append(_replace(frame, f, new, False))
+    return out
